@@ -123,6 +123,24 @@ def count_matrices(draw, n_min=1, n_max=7, connected=None, flavours=None, dtypes
                 for j in range(n):
                     if C[i][j] and not C[j][i]:
                         C[j][i] = C[i][j]
+    if flavour == "symmetric" and n >= 2 and draw(st.integers(0, 2)) == 0:
+        # nearly symmetric counts of a long equilibrium simulation: hundreds of thousands of counts per pair, forward and
+        # backward differing by one or two (|c_ij - c_ji| <= 1e-5 c_ji: "equal" to np.allclose, yet not symmetric)
+        C = [[v * 200000 for v in row] for row in C]
+        bumps = draw(st.lists(st.integers(0, 2), min_size=n * n, max_size=n * n))
+        hit = False
+        for i in range(n):
+            for j in range(i + 1, n):
+                if C[i][j]:
+                    C[i][j] += bumps[i * n + j]
+                    hit = hit or bumps[i * n + j] > 0
+        if not hit:
+            for i in range(n):
+                for j in range(i + 1, n):
+                    if C[i][j] and not hit:
+                        C[i][j] += 1
+                        hit = True
+        flavour = "near_symmetric"
     if dtype == "float64":
         C = [[float(v) for v in row] for row in C]
     return {"n": n, "C": C, "dtype": dtype, "flavour": flavour}
